@@ -260,7 +260,8 @@ var tallyDefaultDurs = []int64{0, 10e6, 25e6, 50e6, 75e6, 100e6, 200e6, 300e6, 4
 // TilingOf models the buckets of a histogram created with spec under a root
 // whose default buckets are def (nil: the library default).
 func TilingOf(spec, def *BucketSpec) *Tiling {
-	if spec == nil || spec.Nil {
+	if spec == nil || spec.Nil || spec.empty() {
+		// "empty/nil meaning scope defaults"
 		if def == nil || def.Nil || (len(def.Bits) == 0 && len(def.Durs) == 0) {
 			spec = &BucketSpec{Dur: true, Durs: tallyDefaultDurs}
 		} else {
